@@ -95,6 +95,10 @@ def setChunk (br : BamReader) : Option Chunk → BamReader × Option Err
     | (r', some e) => ({ br with r := r' }, some e)
     | (r', none) => ({ br with r := r', c := some c }, none)
 
+/-- `Reader.Seek(off)`: `return br.r.Seek(off)` (neither `br.c` nor `br.lastChunk` changes). -/
+def seek (br : BamReader) (off : Offset) : BamReader × Option Err :=
+  ({ br with r := (br.r.seek off).1 }, (br.r.seek off).2)
+
 end BamReader
 
 /-- `bam.Iterator` -/
